@@ -214,6 +214,7 @@ class Observer:
         self.strict = strict
         self.pins = {}         # strict mode: vid -> who refers to a result that should be gone (taken before any collection)
         self.lock = threading.Lock()
+        self.cur = {}          # thread ident -> index of the call that worker is executing
         self.log = []          # (kind, k, ended(list), census(sorted vids), emptied entries(sorted idx))
         self.model = None
         self.struct_errors = []
@@ -279,6 +280,7 @@ class Observer:
             def fn2(node):
                 if type(node) is Call:
                     self.hook("start", idx[node])
+                    self.cur[threading.get_ident()] = idx[node]
                     try:
                         fn(node)
                     except BaseException as e:
@@ -304,12 +306,22 @@ class Observer:
             return inner(graph, fn2, **kw)
         return rfog
 
-    def hook(self, kind, k):
+    def reported_completed(self):
+        """`increment_completed(section="run")` is being delivered on this thread: uberjob is telling the observer that the call
+        this worker ran HAS finished - so by now it must have let go of the call's arguments (census with that call counted as
+        finished)."""
+        if self.model is None:
+            return
+        k = self.cur.get(threading.get_ident())
+        if k is not None and k not in self.ended and k not in self.failed:
+            self.hook("reported-completed", k, also_ended=k)
+
+    def hook(self, kind, k, also_ended=None):
         with self.lock:
             m = self.model
             emptied = sorted(m["idx"][n] for n, s in m["lookup"].items() if s.value is None)
             census = self.census()
-            fin = (list(self.ended), list(self.failed))
+            fin = (list(self.ended) + ([also_ended] if also_ended is not None else []), list(self.failed))
             if self.strict and not self.pins:
                 on = self.holder.get("output_node")
                 want = oracle_live(m, m["idx"].get(on) if on is not None else None, fin)
@@ -347,6 +359,40 @@ def who_refers(obj, depth=7, limit=400):
     return out[:14]
 
 
+class _ReportObs(uberjob.progress.ProgressObserver):
+    def __init__(self, obs):
+        self.obs = obs
+
+    def __enter__(self):
+        pass
+
+    def __exit__(self, *a):
+        pass
+
+    def increment_total(self, *, section, scope, amount):
+        pass
+
+    def increment_running(self, *, section, scope):
+        pass
+
+    def increment_completed(self, *, section, scope):
+        if section == "run":
+            self.obs.reported_completed()
+
+    def increment_failed(self, *, section, scope, exception):
+        pass
+
+
+class ReportHook(uberjob.progress.Progress):
+    """a progress observer whose only job is to take a census at the moment a call is reported completed"""
+
+    def __init__(self, obs):
+        self.obs1 = _ReportObs(obs)
+
+    def observer(self):
+        return self.obs1
+
+
 def run_case(case, seed):
     refs, rec = {}, plans.Rec()
     plan, registry, output = build(case, refs, rec)
@@ -369,7 +415,7 @@ def run_case(case, seed):
                 gc.collect()
                 gc.disable()
             return uberjob.run(plan, output=output, registry=registry, max_workers=case["workers"], retry=case.get("retry"),
-                               scheduler=case["scheduler"], progress=None, max_errors=case.get("max_errors", 0))
+                               scheduler=case["scheduler"], progress=ReportHook(obs), max_errors=case.get("max_errors", 0))
         finally:
             rp.run_function_on_graph = cur
             rp.prep_run_physical = orig_prep
